@@ -378,7 +378,7 @@ func evalOn(b *built, w *witness) (string, string, bool) {
 					}
 					if overlap(rs, full) {
 						sym := "needed-" + kind
-						if rs != full && kind == "src" {
+						if rs != full {
 							sym += ":directory-overlap" // exact-path comparison: a file inside a needed directory, or a directory holding a needed file
 						}
 						return sym, fmt.Sprintf("gc proposes deleting %s, but needed target %s (%s) uses %s as %s", rs, w.Names[i], why[i], full, kind)
